@@ -29,6 +29,15 @@ def run(ctx: core.Ctx):
     b2check.run_b2(ctx, jobs_slow, MONS, label="slow (blocking) writes, monitor only", accept=False)
     b2check.run_b2(ctx, lambda rng, th: [(gen.conn_busy_callback(rng), rng.randrange(10 ** 9), rng.choice([0, 3])) for _ in range(3000 if th else 100)],
                    MONS, label="message callbacks still running when the keep-alive timer expires")
+    def jobs_hot(rng, th):
+        out = []
+        for _ in range(3000 if th else 100):
+            spec = gen.conn_traffic(rng, max_threads=2, max_cmds=8)
+            spec["hot"] = "connection_made"          # thread switches between any two bytecodes while the connection is being set up
+            spec["hot_budget"] = rng.choice([3, 8, 20])
+            out.append((spec, rng.randrange(10 ** 9), 0))
+        return out
+    b2check.run_b2(ctx, jobs_hot, MONS, label="bytecode-level preemption inside connection_made, monitor only", accept=False)
     ctx.info["rule"] = ("sessions of 5..20 keep-alive intervals of virtual time with random command patterns and idle periods; each under a seeded schedule with extra line-level preemptions; a case = one schedule; "
                         "non-trivial = distinct (spec, seed)")
     return ctx.finish()
